@@ -71,8 +71,16 @@ def load_plugins(config: 'ConfigService', custom=None) -> List['Plugin']:
         except Exception as e:
             logging.debug("Could not load plugin %s: %s", plugin, e)
 
-    loaded.sort(key=lambda pl: pl.order() or 0)
+    loaded.sort(key=__plugin_order)
     return loaded
+
+
+def __plugin_order(plugin: 'Plugin') -> int:
+    try:
+        return plugin.order() or 0
+    except Exception as e:
+        logging.debug("Could not get order of plugin %s: %s", plugin, e)
+        return 0
 
 
 class Plugin(abc.ABC):
